@@ -133,7 +133,7 @@ class MultiCrossBlockRepeat(Block):
         self._alignment_preamble = max(
             (
                 f.first_level.window.start or 0
-                for f in self.design
+                for c in self.crossings for f in c
                 if isinstance(f, DerivedFactor)
                 and f.has_complex_window
             ),
